@@ -234,3 +234,27 @@ package goose
 //@   noframe
 //@ assume func github.com/pkg/errors.New (message)
 //@   ensures result != nil
+
+// ---- dependency recording (C04): a mention of a same-package name is recorded first -------------
+// depset is the ghost view of depTracker.deps (keyed by the tracker). addDep's ghost effect is
+// assumed at call sites; that deps is append-only is proved for addDep's body, and no other
+// function stores to it (store sweep of C06).
+
+//@ ghost var depset map[Int]map[string]bool monotone
+
+//@ props C04
+
+//@ func (*depTracker).addDep
+//@   ensures [dependency recorded in the list] len(dt.deps) == old(len(dt.deps)) + 1 && elemat(dt.deps, dt.deps.off + old(len(dt.deps))) == s
+//@   ensures [dependency list is append-only] forall j int :: 0 <= j && j < old(len(dt.deps)) ==> dt.deps[j] == old(dt.deps[j])
+//@   ghost_ensures depset == old(depset)[ref(dt) := old(depset)[ref(dt)][s := true]]
+//@   modifies dt.deps, elems(dt.deps, len(dt.deps), cap(dt.deps)), depset
+//@ func (Ctx).coqRecurFunc
+//@   requires [dependency on the called function is recorded by the caller] depset[ref(ctx.dep)][fullFuncName]
+//@   may_reject
+//@ func (Ctx).structSelector
+//@   may_reject
+//@   ensures [dependency on the struct recorded] depset[ref(ctx.dep)][info.name]
+//@ func (Ctx).structLiteral
+//@   may_reject
+//@   ensures [dependency on the struct recorded] depset[ref(ctx.dep)][info.name]
